@@ -2,8 +2,9 @@
 (***************************************************************************)
 (* C26: time-triggered <-> STN plan conversions are faithful.              *)
 (*                                                                         *)
-(* Every recorded (problem, time-triggered plan [, conversion results]) is *)
-(* one initial state.  Two modes (IOEnv.MODE):                             *)
+(* Every recorded problem is one initial state and every recorded         *)
+(* (time-triggered plan [, conversion results]) of it one successor state. *)
+(* Two modes (IOEnv.MODE):                                                 *)
 (*                                                                         *)
 (*  "P1"  selection: prints <<"V", pid, pi>> iff the candidate plan is      *)
 (*        VALID by the reference temporal semantics UPTimeSem!TimeVerdict  *)
